@@ -47,6 +47,7 @@ func runC02(c *core.Ctx) {
 	c02R3(c)
 	c02R4(c)
 	c02R5(c)
+	c02R7(c)
 }
 
 // chanValidPred: channel.ChannelType != ChannelInvalid for the *security.Channel value ch
@@ -381,4 +382,54 @@ func c02R5(c *core.Ctx) {
 		}
 	}
 	c.Check(okAssign && !bad, rule, fnName(f)+":exclude set only under me=0", mc.Pos(), "`exclude` is the publisher's id exactly under channel.Exclude()", "`exclude` is assigned outside channel.Exclude()=true or not with the publisher's id")
+}
+
+// c02R7: a link shortcut expands to exactly the channel that was requested.
+func c02R7(c *core.Ctx) {
+	rule := "C02.R7"
+	c.Rule(rule, "link round trip: link.OnRequest registers (AddLink) the very channel parsed from the request; Conn.AddLink stores channel.String() under the alias and Conn.GetLink returns the stored string for short topics and the topic itself otherwise", 3)
+	if f := fn(c, rule, "internal/service/link", "Service", "OnRequest"); f != nil {
+		adds := eng.Calls(f, false, M+"service.Conn.AddLink")
+		mk := eng.Calls(f, false, M+"security.MakeChannel", M+"security.ParseChannel")
+		ok := len(adds) == 1 && len(mk) == 1
+		if ok {
+			a := eng.CallArgs(adds[0].Common())
+			ok = a[2] == mk[0].Value()
+		}
+		c.Check(ok, rule, fnName(f)+":registers the parsed channel", f.Pos(), "the link stores the channel exactly as requested (options included)", "the channel registered for the shortcut is not the channel parsed from the request (options such as me=0 / ttl may be lost or altered)")
+	}
+	if f := fn(c, rule, "internal/broker", "Conn", "AddLink"); f != nil {
+		ok := false
+		eng.Instrs(f, func(in ssa.Instruction) {
+			if mu, isMU := in.(*ssa.MapUpdate); isMU {
+				if _, isLinks := eng.LoadOfField(mu.Map, "links"); isLinks && mu.Key == param(f, 1) &&
+					isCallOn(mu.Value, M+"security.Channel.String", func(r ssa.Value) bool { return r == param(f, 2) }) {
+					ok = true
+				}
+			}
+		})
+		c.Check(ok, rule, fnName(f)+":stores channel.String()", f.Pos(), "links[alias] = channel.String()", "AddLink does not store channel.String() under the alias")
+	}
+	if f := fn(c, rule, "internal/broker", "Conn", "GetLink"); f != nil {
+		ok := true
+		n := 0
+		eng.Instrs(f, func(in ssa.Instruction) {
+			ret, isRet := in.(*ssa.Return)
+			if !isRet {
+				return
+			}
+			n++
+			v := eng.StripConv(ret.Results[0])
+			if denotesParam(f, v, param(f, 1), 0) {
+				return
+			}
+			if lk, isLk := v.(*ssa.Lookup); isLk {
+				if _, isLinks := eng.LoadOfField(lk.X, "links"); isLinks {
+					return
+				}
+			}
+			ok = false
+		})
+		c.Check(ok && n == 2, rule, fnName(f)+":returns stored link or topic", f.Pos(), "a shortcut expands to the stored string, anything else is passed through", "GetLink returns something other than the stored link or the topic itself")
+	}
 }
